@@ -238,6 +238,12 @@ func GenModes(r *vh.Rng, s *SchemaSpec) Modes {
 				default:
 					md.Kind = "fallback"
 					md.UseBatch = r.Chance(60)
+					// a batch function's non-list result type is made nullable, its fallback's is not:
+					// schemabuilder rejects the pair for non-pointer scalars
+					switch f.Ret.K {
+					case "int", "str", "bool", "enum":
+						md.Kind = "batch"
+					}
 				}
 				if md.Kind != "expensive" && r.Chance(45) {
 					md.Par = 1 + r.Intn(5)
